@@ -250,13 +250,14 @@ fn run_state(layout: usize, ops: &[Op], probing_extra: bool, pairs: bool, rename
         match op {
             Op::Reg1 | Op::Reg1b => {
                 let (port, props): (u16, &[(&str, &str)]) = if *op == Op::Reg1 { (80, &[("k", "v")]) } else { (8080, &[("k", "w"), ("x", "")]) };
-                let s = svc("_s._sub._t._tcp.local.", "one", "host.local.", &ipstr, port, props);
+                // (host name registered with a capital letter; questions come in both spellings)
+                let s = svc("_s._sub._t._tcp.local.", "one", "Host.local.", &ipstr, port, props);
                 w.ds[0].h.register(s).unwrap();
                 let txt = if *op == Op::Reg1 { txt_rdata(&[(b"k", Some(b"v"))]) } else { txt_rdata(&[(b"k", Some(b"w")), (b"x", Some(b""))]) };
                 refs.insert("one._t._tcp.local.".into(), RefSvc { ty: n("_t._tcp.local"), sub: Some(n("_s._sub._t._tcp.local")), inst: n("one._t._tcp.local"), host: n("host.local"), port, txt, addrs: ipv.clone(), announced: true });
             }
             Op::Reg2 => {
-                let s = svc("_u._udp.local.", "two", "host.local.", &ipstr, 81, &[]);
+                let s = svc("_u._udp.local.", "two", "Host.local.", &ipstr, 81, &[]);
                 w.ds[0].h.register(s).unwrap();
                 refs.insert("two._u._udp.local.".into(), RefSvc { ty: n("_u._udp.local"), sub: None, inst: n("two._u._udp.local"), host: n("host.local"), port: 81, txt: vec![0], addrs: ipv.clone(), announced: true });
             }
@@ -280,7 +281,7 @@ fn run_state(layout: usize, ops: &[Op], probing_extra: bool, pairs: bool, rename
             injected = true;
             w.advance(100);
             let inst = if *op == Op::Reg2 { n("two._u._udp.local") } else { n("one._t._tcp.local") };
-            let host = n("host.local");
+            let host = n("Host.local");
             let ifs: Vec<u32> = { let mut v: Vec<u32> = intfs.iter().map(|i| i.index).collect(); v.sort(); v.dedup(); v };
             for ifi in ifs {
                 let mut recs = vec![];
